@@ -10,6 +10,7 @@ import (
 	"regexp"
 	"strings"
 	"sync"
+	"sync/atomic"
 	"time"
 )
 
@@ -31,6 +32,77 @@ func relaxText(s string) string {
 		b.WriteByte('\n')
 	}
 	return b.String()
+}
+
+// splitGoal breaks a goal into conjuncts that can be discharged separately: (and a b) gives a, b;
+// (=> g (and a b)) gives (=> g a), (=> g b); (forall vs (! (=> g (and a b)) pats)) gives one quantified
+// formula per conjunct.  Proving every part proves the goal; solvers that wander on the negation of a
+// conjunction (a disjunction of refutable cases) decide the parts at once.
+func splitGoal(goal string) []string {
+	toks := sexpTokens(goal)
+	if len(toks) == 0 || toks[0] != "(" {
+		return []string{goal}
+	}
+	defer func() { recover() }()
+	p := 0
+	n := parseSexp(toks, &p)
+	if p != len(toks) {
+		return []string{goal}
+	}
+	var split func(n *sexpNode, depth int) []*sexpNode
+	split = func(n *sexpNode, depth int) []*sexpNode {
+		if depth > 6 || len(n.kids) == 0 {
+			return []*sexpNode{n}
+		}
+		head := n.kids[0].atom
+		switch {
+		case head == "and":
+			var out []*sexpNode
+			for _, k := range n.kids[1:] {
+				out = append(out, split(k, depth+1)...)
+			}
+			return out
+		case head == "=>" && len(n.kids) == 3:
+			var out []*sexpNode
+			for _, c := range split(n.kids[2], depth+1) {
+				out = append(out, &sexpNode{kids: []*sexpNode{n.kids[0], n.kids[1], c}})
+			}
+			return out
+		case head == "forall" && len(n.kids) == 3:
+			body := n.kids[2]
+			if len(body.kids) >= 2 && body.kids[0].atom == "!" {
+				inner := split(body.kids[1], depth+1)
+				if len(inner) == 1 {
+					return []*sexpNode{n}
+				}
+				var out []*sexpNode
+				for _, c := range inner {
+					nb := &sexpNode{kids: append([]*sexpNode{body.kids[0], c}, body.kids[2:]...)}
+					out = append(out, &sexpNode{kids: []*sexpNode{n.kids[0], n.kids[1], nb}})
+				}
+				return out
+			}
+			inner := split(body, depth+1)
+			if len(inner) == 1 {
+				return []*sexpNode{n}
+			}
+			var out []*sexpNode
+			for _, c := range inner {
+				out = append(out, &sexpNode{kids: []*sexpNode{n.kids[0], n.kids[1], c}})
+			}
+			return out
+		}
+		return []*sexpNode{n}
+	}
+	parts := split(n, 0)
+	if len(parts) <= 1 || len(parts) > 12 {
+		return []string{goal}
+	}
+	var out []string
+	for _, x := range parts {
+		out = append(out, x.String())
+	}
+	return out
 }
 
 // smtText renders the query for obligation o of vc.
@@ -270,6 +342,9 @@ func solveAll(vcs []*VC, obls []*Obligation, vcOf map[*Obligation]*VC, tier stri
 	}
 	sem := make(chan struct{}, 12)
 	var wg sync.WaitGroup
+	// once a run has many undecided obligations (a tree that breaks a whole family of functions), the
+	// remaining ones get a short time limit: the violations to report are already there
+	var undecided int32
 	for i, o := range obls {
 		wg.Add(1)
 		go func(i int, o *Obligation) {
@@ -302,9 +377,54 @@ func solveAll(vcs []*VC, obls []*Obligation, vcOf map[*Obligation]*VC, tier stri
 			to := timeout
 			if o.Canary {
 				to = 1 * time.Second
+			} else if atomic.LoadInt32(&undecided) > 24 && to > 3*time.Second {
+				to = 3 * time.Second
 			}
 			rs := discharge(o, file, to, tier == "thorough" && !o.Canary)
 			summarize(o, rs)
+			if !o.Canary && o.Result != "unsat" {
+				atomic.AddInt32(&undecided, 1)
+			}
+			if !o.Canary && o.Result != "unsat" && o.Result != "sat" && atomic.LoadInt32(&undecided) <= 24 {
+				// undecided: try the conjuncts of the goal one by one (every part proved = the goal proved)
+				if parts := splitGoal(o.Goal); len(parts) > 1 {
+					marker := fmt.Sprintf("(assert (not %s))\n(check-sat)", o.Goal)
+					if strings.Contains(text, marker) {
+						all := true
+						var slowest int64
+						solver := ""
+						for pi, part := range parts {
+							ptext := strings.Replace(text, marker, fmt.Sprintf("(assert (not %s))\n(check-sat)", part), 1)
+							if i := strings.Index(ptext, "(get-value"); i >= 0 {
+								ptext = ptext[:i]
+							}
+							pfile := filepath.Join(scratch, fmt.Sprintf("o%04d_part%d.smt2", i, pi))
+							if os.WriteFile(pfile, []byte(ptext), 0644) != nil {
+								all = false
+								break
+							}
+							po := &Obligation{Name: o.Name}
+							prs := discharge(po, pfile, to, false)
+							summarize(po, prs)
+							if po.Result != "unsat" {
+								all = false
+								break
+							}
+							if po.Millis > slowest {
+								slowest = po.Millis
+							}
+							solver = po.Solver
+						}
+						if all {
+							o.Result = "unsat"
+							o.Solver = solver + fmt.Sprintf(" (goal split into %d conjuncts)", len(parts))
+							o.Millis = slowest
+							o.Output = ""
+							o.Model = nil
+						}
+					}
+				}
+			}
 			if !o.Canary && o.Result != "unsat" && o.Result != "sat" && len(o.ReplayQ) > 0 {
 				// look for a candidate counterexample without the quantified axioms
 				rfile := filepath.Join(scratch, fmt.Sprintf("o%04d_relaxed.smt2", i))
